@@ -10,7 +10,10 @@ import (
 	"golang.org/x/image/font/gofont/gosmallcaps"
 	"golang.org/x/text/language"
 
+	"seehuhn.de/go/postscript/cid"
+	"seehuhn.de/go/postscript/type1"
 	"seehuhn.de/go/sfnt"
+	"seehuhn.de/go/sfnt/cff"
 	"seehuhn.de/go/sfnt/glyph"
 	"seehuhn.de/go/sfnt/header"
 	"seehuhn.de/go/sfnt/internal/debug"
@@ -147,6 +150,19 @@ func makeSeeds() seedSet {
 		}()
 	}
 
+	// CID-keyed CFF fonts written by the library: alternating Font DICTs force
+	// FDSelect format 0; 40..1024 glyphs with a little outline each make the
+	// CFF data larger than the parser's buffer, so that sections read early
+	// (FDSelect) are followed by seeks that refill it
+	for _, n := range []int{6, 40, 300, 1024, 1025} {
+		if b := cidFontBytes(n, 3, true); b != nil {
+			add("cff.Read", b)
+		}
+	}
+	if b := cidFontBytes(500, 4, false); b != nil { // long runs: FDSelect format 3
+		add("cff.Read", b)
+	}
+
 	for _, f := range fonts {
 		add("sfnt.Read", f)
 		add("header.Read", f)
@@ -197,4 +213,46 @@ func makeSeeds() seedSet {
 	add("classdef.Read", cd2.Append(nil))
 	add("coverage.ReadSet", coverage.Set{1: true, 2: true, 9: true}.ToTable().Encode())
 	return s
+}
+
+
+// cidFontBytes writes, with the library's own writer, a CID-keyed CFF font with
+// n glyphs spread over nFD Font DICTs (alternating per glyph, or in long runs).
+func cidFontBytes(n, nFD int, alternate bool) (out []byte) {
+	defer func() {
+		if recover() != nil {
+			out = nil
+		}
+	}()
+	o := &cff.Outlines{}
+	fds := make([]int, n)
+	for i := 0; i < n; i++ {
+		g := cff.NewGlyph("", float64(400+i%7*50))
+		g.MoveTo(float64(10+i%13), 0)
+		g.LineTo(float64(300+i%17), 0)
+		g.LineTo(float64(300+i%17), float64(500+i%19))
+		g.LineTo(float64(10+i%13), float64(500+i%19))
+		o.Glyphs = append(o.Glyphs, g)
+		if alternate {
+			fds[i] = i % nFD
+		} else {
+			fds[i] = i * nFD / n
+		}
+	}
+	for k := 0; k < nFD; k++ {
+		o.Private = append(o.Private, &type1.PrivateDict{BlueScale: 0.039625, BlueShift: 7, BlueFuzz: 1, StdHW: float64(10 + k)})
+		o.FontMatrices = append(o.FontMatrices, [6]float64{1, 0, 0, 1, 0, 0})
+	}
+	o.FDSelect = func(g glyph.ID) int { return fds[g] }
+	o.ROS = &cid.SystemInfo{Registry: "Adobe", Ordering: "Identity", Supplement: 0}
+	o.GIDToCID = make([]cid.CID, n)
+	for i := range o.GIDToCID {
+		o.GIDToCID[i] = cid.CID(i)
+	}
+	f := &cff.Font{FontInfo: &type1.FontInfo{FontName: "VerifCID", FontMatrix: [6]float64{0.001, 0, 0, 0.001, 0, 0}}, Outlines: o}
+	buf := &bytes.Buffer{}
+	if err := f.Write(buf); err != nil {
+		return nil
+	}
+	return buf.Bytes()
 }
